@@ -328,6 +328,11 @@ def subs(tier, only=None):
                        rule='case = (path whose last / middle / only key is a T or Spec expression evaluated against the target, function | spec form): the effect '
                             'equals item assignment with the evaluated key, and reading the same path back yields the value',
                        min_nontrivial=15, min_outcomes=2, required_tags=['last-key-from-T', 'middle-key-from-T']))
+    if only in (None, 'dynamic-keys-below-wildcards'):
+        from . import c12
+        out.append(Sub('dynamic-keys-below-wildcards', c12.gen_dynamic_wildcard(('assign',)), c12.run_dynamic_wildcard,
+                       rule='case = (rows.* followed by a T[spec] key whose spec reads data the assignment changes / leaves alone): the key is evaluated once',
+                       min_nontrivial=6, min_outcomes=1, required_tags=['key-from-first-row']))
     if only in (None, 'empty-segments'):
         from . import c12
         out.append(Sub('empty-segments', c12.gen_empty_segments(('assign',)), c12.run_empty_segments,
